@@ -430,8 +430,9 @@ def main(argv=None):
         ev['coverage']['states'] = 1
     if ev['coverage']['transitions'] < 1:
         ev['coverage']['transitions'] = 1
-    os.makedirs(os.path.join(ROOT, 'evidence'), exist_ok=True)
-    json.dump(ev, open(os.path.join(ROOT, 'evidence', pid + '.json'), 'w'), indent=1, default=str)
+    evdir = os.environ.get('VERIF_EVIDENCE_DIR') or os.path.join(ROOT, 'evidence')      # override: sizing runs that must not touch the committed evidence
+    os.makedirs(evdir, exist_ok=True)
+    json.dump(ev, open(os.path.join(evdir, pid + '.json'), 'w'), indent=1, default=str)
 
     print('%s tier=%s cases=%d paths=%d obligations=%d proved=%d (normal-form %d, solver %d) inconclusive=%d '
           'spurious=%d unconfirmed=%d violations=%d known=%d queries=%d solver_s=%.1f wall_s=%.1f' % (
